@@ -19,17 +19,18 @@ const (
 
 // Behaviour flags carried in data word 1 of the params.
 const (
-	FlagHold      = 1 << 0 // Ack, then wait for the gate of this serial
-	FlagErr       = 1 << 1 // return an error
-	FlagCapShift  = 2      // bits 2-3: capability placed in result pointer 0
-	CapNone       = 0
-	CapNewObject  = 1 // a fresh local object
-	CapSelf       = 2 // the object itself
-	CapEchoParam  = 3 // the capability received in params pointer 0
-	FlagTwice     = 1 << 4 // the same capability also in result pointer 1
-	FlagSecond    = 1 << 5 // a second, different fresh object in result pointer 1 (instead of FlagTwice's copy)
-	SecondMark    = 1 << 40 // object-new events of the second object carry serial|SecondMark
-	FlagLateAck   = 1 << 6  // with FlagHold: the delivery is acknowledged only when the gate opens (the object stays busy)
+	FlagHold     = 1 << 0 // Ack, then wait for the gate of this serial
+	FlagErr      = 1 << 1 // return an error
+	FlagCapShift = 2      // bits 2-3: capability placed in result pointer 0
+	CapNone      = 0
+	CapNewObject = 1       // a fresh local object
+	CapSelf      = 2       // the object itself
+	CapEchoParam = 3       // the capability received in params pointer 0
+	FlagTwice    = 1 << 4  // the same capability also in result pointer 1
+	FlagSecond   = 1 << 5  // a second, different fresh object in result pointer 1 (instead of FlagTwice's copy)
+	SecondMark   = 1 << 40 // object-new events of the second object carry serial|SecondMark
+	FlagNoCancel = 1 << 7  // with FlagHold: the implementation ignores the cancellation of its context
+	FlagLateAck  = 1 << 6  // with FlagHold: the delivery is acknowledged only when the gate opens (the object stays busy)
 )
 
 // World holds the local application's recording objects.
@@ -150,7 +151,9 @@ func (o *Object) do(ctx context.Context, call *server.Call) error {
 	if flags&FlagLateAck == 0 || flags&FlagHold == 0 {
 		call.Ack()
 	}
-	if flags&FlagHold != 0 {
+	if flags&FlagHold != 0 && flags&FlagNoCancel != 0 {
+		<-o.W.gate(serial)
+	} else if flags&FlagHold != 0 {
 		select {
 		case <-o.W.gate(serial):
 		case <-ctx.Done():
@@ -351,12 +354,12 @@ func (w *Wire) SendRelease(id, count uint32) error {
 
 // PeerReturn describes a Return the peer sends for one of the Conn's questions.
 type PeerReturn struct {
-	A       uint32    `json:"a"`
-	Exc     string    `json:"exc,omitempty"` // exception reason (if set, an exception Return)
-	Serial  uint64    `json:"serial"`
-	Caps    []CapDesc `json:"caps,omitempty"` // results pointer i refers to capability i
-	RelParams bool    `json:"release_param_caps"`
-	ContentCap bool   `json:"content_cap,omitempty"` // the content is an interface pointer to capability 0 (a Bootstrap answer)
+	A          uint32    `json:"a"`
+	Exc        string    `json:"exc,omitempty"` // exception reason (if set, an exception Return)
+	Serial     uint64    `json:"serial"`
+	Caps       []CapDesc `json:"caps,omitempty"` // results pointer i refers to capability i
+	RelParams  bool      `json:"release_param_caps"`
+	ContentCap bool      `json:"content_cap,omitempty"` // the content is an interface pointer to capability 0 (a Bootstrap answer)
 }
 
 func (w *Wire) SendReturn(r PeerReturn) error {
